@@ -5,6 +5,7 @@ mod eng_client;
 mod eng_gpu;
 mod eng_server;
 mod eng_session;
+mod eng_txn;
 mod eng_valid;
 mod feops;
 mod rec;
@@ -54,6 +55,10 @@ fn main() {
             let cases = read_cases(&arg(&args, "--cases").expect("--cases"));
             let n: usize = arg(&args, "--random").and_then(|s| s.parse().ok()).unwrap_or(0);
             eng_valid::run(&cases, &mut trace, seed, n);
+        }
+        "txn" => {
+            let cases = read_cases(&arg(&args, "--cases").expect("--cases"));
+            eng_txn::run(&cases, &mut trace, seed);
         }
         "gpu" => {
             let cases = read_cases(&arg(&args, "--cases").expect("--cases"));
